@@ -1365,3 +1365,330 @@ func TestGovcReplay(t *testing.T) {
 		},
 	})
 }
+
+func init() {
+	harnesses = append(harnesses, &harness{
+		name:      "tars round-trip replay (requests of growing size encoded by MOSN, then decoded)",
+		modelFree: true,
+		match: func(o *Obligation) bool {
+			return strings.Contains(o.Func, "xprotocol/tars.decodeRequest") || strings.Contains(o.Func, "xprotocol/tars.decodeResponse")
+		},
+		run: func(eng *Engine, o *Obligation) *ReplayOutcome {
+			src := `package tars
+
+import (
+	"bytes"
+	"context"
+	"fmt"
+	"testing"
+
+	"github.com/TarsCloud/TarsGo/tars/protocol/res/requestf"
+	"mosn.io/mosn/pkg/protocol"
+	"mosn.io/pkg/buffer"
+	"mosn.io/pkg/variable"
+)
+
+// The failed obligation says: the tars structure reader may be built over more (or other) bytes than the packet
+// structure. Replay: requests with bodies of 10..5000 bytes are encoded by MOSN's own encoder and decoded again.
+func TestGovcReplay(t *testing.T) {
+	for _, n := range []int{10, 100, 200, 300, 1000, 5000} {
+		body := make([]int8, n)
+		for i := range body {
+			body[i] = int8(i % 100)
+		}
+		pkt := &requestf.RequestPacket{IVersion: 1, IRequestId: 7, SServantName: "svc.obj", SFuncName: "fn", SBuffer: body, Context: map[string]string{}, Status: map[string]string{}}
+		req := &Request{cmd: pkt, CommonHeader: protocol.CommonHeader{}}
+		ctx := variable.NewVariableContext(context.Background())
+		enc, err := encodeRequest(ctx, req)
+		if err != nil {
+			t.Fatal(err)
+		}
+		wire := append([]byte{}, enc.Bytes()...)
+		cmd, err := decodeRequest(ctx, buffer.NewIoBufferBytes(append([]byte{}, wire...)))
+		if err != nil {
+			fmt.Printf("REPLAY-CONFIRMED body of %d bytes (frame %d bytes): a frame MOSN itself encoded does not decode: %v\n", n, len(wire), err)
+			return
+		}
+		got := cmd.(*Request)
+		if got.cmd.IVersion != 1 || got.cmd.SFuncName != "fn" || !bytes.Equal(int8s(got.cmd.SBuffer), int8s(body)) {
+			fmt.Printf("REPLAY-CONFIRMED body of %d bytes (frame %d bytes): decoded frame differs: version=%d func=%q bodylen=%d\n", n, len(wire), got.cmd.IVersion, got.cmd.SFuncName, len(got.cmd.SBuffer))
+			return
+		}
+	}
+	fmt.Println("REPLAY-NOT-REPRODUCED")
+}
+
+func int8s(a []int8) []byte {
+	b := make([]byte, len(a))
+	for i, v := range a {
+		b[i] = byte(v)
+	}
+	return b
+}
+`
+			out, _ := runOverlayTest("pkg/protocol/xprotocol/tars", src, "^TestGovcReplay$")
+			return outcomeFromOutput(src, out)
+		},
+	})
+}
+
+func init() {
+	harnesses = append(harnesses, &harness{
+		name:      "dubbo frame clone replay (clone of a frame without raw data, then encode)",
+		modelFree: true,
+		match: func(o *Obligation) bool {
+			return strings.Contains(o.Func, "xprotocol/dubbo.(*Frame).Clone")
+		},
+		run: func(eng *Engine, o *Obligation) *ReplayOutcome {
+			src := `package dubbo
+
+import (
+	"bytes"
+	"context"
+	"fmt"
+	"testing"
+
+	"mosn.io/pkg/buffer"
+	"mosn.io/pkg/variable"
+)
+
+// The failed obligation says: the clone of a frame without raw data may get an (empty) raw frame of its own.
+// Replay: decode, replace the body (no raw frame any more), clone (mirror filter / retry), encode the clone.
+func TestGovcReplay(t *testing.T) {
+	raw := []byte{0xda, 0xbb, 0x02, 20, 0, 0, 0, 0, 0, 0, 0, 7, 0, 0, 0, 4, 'a', 'b', 'c', 'd'}
+	ctx := variable.NewVariableContext(context.Background())
+	cmd, err := decodeFrame(ctx, buffer.NewIoBufferBytes(append([]byte{}, raw...)))
+	if err != nil {
+		t.Fatal(err)
+	}
+	f := cmd.(*Frame)
+	f.SetData(buffer.NewIoBufferString("GOVC-NEW-BODY")) // a filter replaced the body: no raw frame any more
+	res := make(chan string, 1)
+	func() {
+		defer func() {
+			if r := recover(); r != nil {
+				res <- fmt.Sprint("panic: ", r)
+			}
+		}()
+		c := f.Clone().(*Frame) // e.g. the mirror filter, or a retry that clones the request headers
+		out, err := encodeFrame(ctx, c)
+		if err != nil {
+			res <- "error: " + err.Error()
+			return
+		}
+		if !bytes.Contains(out.Bytes(), []byte("GOVC-NEW-BODY")) {
+			res <- fmt.Sprintf("clone encodes to %q", out.Bytes())
+			return
+		}
+		res <- ""
+	}()
+	if s := <-res; s != "" {
+		fmt.Println("REPLAY-CONFIRMED encoding the clone of a frame that has no raw data:", s)
+		return
+	}
+	fmt.Println("REPLAY-NOT-REPRODUCED")
+}
+`
+			out, _ := runOverlayTest("pkg/protocol/xprotocol/dubbo", src, "^TestGovcReplay$")
+			return outcomeFromOutput(src, out)
+		},
+	})
+}
+
+func init() {
+	harnesses = append(harnesses, &harness{
+		name:      "retried request vs global timeout replay (first try fails in the header phase of a request with a body, retry never answered)",
+		modelFree: true,
+		match: func(o *Obligation) bool {
+			return strings.Contains(o.Func, "proxy.(*downStream).doRetry") && !strings.Contains(o.Name, "stillTracked") || strings.Contains(o.Func, "proxy.(*downStream).onUpstreamRequestSent") && !strings.Contains(o.Func, "$")
+		},
+		run: func(eng *Engine, o *Obligation) *ReplayOutcome {
+			src := `package proxy
+
+import (
+	"context"
+	"fmt"
+	"sync/atomic"
+	"testing"
+	"time"
+
+	"mosn.io/api"
+	v2 "mosn.io/mosn/pkg/config/v2"
+	"mosn.io/mosn/pkg/network"
+	"mosn.io/mosn/pkg/protocol"
+	"mosn.io/mosn/pkg/streamfilter"
+	"mosn.io/mosn/pkg/types"
+	"mosn.io/mosn/pkg/upstream/cluster"
+	"mosn.io/pkg/variable"
+	"mosn.io/pkg/buffer"
+)
+
+// ---- fakes (all names prefixed with zzDemo to avoid clashes) ----
+
+type zzDemoRetryPolicy struct{}
+
+func (zzDemoRetryPolicy) RetryOn() bool                  { return false } // default policy
+func (zzDemoRetryPolicy) TryTimeout() time.Duration      { return 0 }     // no per-try timeout (default)
+func (zzDemoRetryPolicy) NumRetries() uint32             { return 1 }
+func (zzDemoRetryPolicy) RetryableStatusCodes() []uint32 { return nil }
+
+type zzDemoPolicy struct{ api.Policy }
+
+func (zzDemoPolicy) RetryPolicy() api.RetryPolicy { return zzDemoRetryPolicy{} }
+
+type zzDemoRouteRule struct{ api.RouteRule }
+
+func (zzDemoRouteRule) ClusterName(context.Context) string { return "zz_demo" }
+func (zzDemoRouteRule) UpstreamProtocol() string           { return "" }
+func (zzDemoRouteRule) GlobalTimeout() time.Duration       { return 300 * time.Millisecond }
+func (zzDemoRouteRule) Policy() api.Policy                 { return zzDemoPolicy{} }
+func (zzDemoRouteRule) FinalizeRequestHeaders(context.Context, api.HeaderMap, api.RequestInfo) {
+}
+func (zzDemoRouteRule) FinalizeResponseHeaders(context.Context, api.HeaderMap, api.RequestInfo) {
+}
+
+// upstream stream that never produces any event by itself
+type zzDemoStream struct{ resets int32 }
+
+func (s *zzDemoStream) ID() uint64                                   { return 1 }
+func (s *zzDemoStream) AddEventListener(types.StreamEventListener)    {}
+func (s *zzDemoStream) RemoveEventListener(types.StreamEventListener) {}
+func (s *zzDemoStream) ResetStream(types.StreamResetReason)           { atomic.AddInt32(&s.resets, 1) }
+func (s *zzDemoStream) DestroyStream()                                {}
+
+// sender used both as the (black hole) upstream request sender and as the downstream response sender
+type zzDemoSender struct {
+	stream      zzDemoStream
+	headersSent int32
+	dataSent    int32
+	lastHeaders atomic.Value
+}
+
+func (s *zzDemoSender) AppendHeaders(_ context.Context, h api.HeaderMap, _ bool) error {
+	atomic.AddInt32(&s.headersSent, 1)
+	return nil
+}
+func (s *zzDemoSender) AppendData(context.Context, types.IoBuffer, bool) error {
+	atomic.AddInt32(&s.dataSent, 1)
+	return nil
+}
+func (s *zzDemoSender) AppendTrailers(context.Context, api.HeaderMap) error { return nil }
+func (s *zzDemoSender) GetStream() types.Stream                              { return &s.stream }
+
+// connection pool: either refuses (connection failure) or hands out a stream to a black hole
+type zzDemoPool struct {
+	types.ConnectionPool
+	host     types.Host
+	fail     bool
+	upstream *zzDemoSender
+	streams  int32
+}
+
+func (p *zzDemoPool) Host() types.Host { return p.host }
+func (p *zzDemoPool) NewStream(context.Context, types.StreamReceiveListener) (types.Host, types.StreamSender, types.PoolFailureReason) {
+	atomic.AddInt32(&p.streams, 1)
+	if p.fail {
+		return p.host, nil, types.ConnectionFailure
+	}
+	return p.host, p.upstream, ""
+}
+
+type zzDemoClusterManager struct {
+	types.ClusterManager
+	pool *zzDemoPool
+}
+
+func (m *zzDemoClusterManager) ConnPoolForCluster(types.LoadBalancerContext, types.ClusterSnapshot, api.ProtocolName) (types.ConnectionPool, types.Host) {
+	return m.pool, m.pool.host
+}
+
+// The failed obligation says: after a retry the request is not guaranteed to be covered by its global timeout.
+// Replay: two-way request with a body, global timeout 300ms, default retry policy; the first try fails to connect
+// while the headers are handed to the pool (before the request was completely sent, so no timer is armed yet), the
+// retry goes to an upstream that never answers. The request must end with one 504 within the timeout.
+func TestGovcReplay(t *testing.T) {
+	ctx := variable.NewVariableContext(context.Background())
+
+	info := cluster.NewClusterInfo(v2.Cluster{Name: "zz_demo", LbType: v2.LB_RANDOM})
+	host := cluster.NewSimpleHost(v2.Host{HostConfig: v2.HostConfig{Address: "127.0.0.1:1"}}, info)
+
+	failPool := &zzDemoPool{host: host, fail: true}
+	blackHole := &zzDemoPool{host: host, upstream: &zzDemoSender{}}
+	downstreamSender := &zzDemoSender{}
+
+	headers := protocol.CommonHeader{}
+	route := &mockRoute{rule: zzDemoRouteRule{}}
+
+	s := &downStream{
+		ID:                   1,
+		context:              ctx,
+		cluster:              info,
+		route:                route,
+		responseSender:       downstreamSender,
+		requestInfo:          &network.RequestInfo{},
+		downstreamReqHeaders: headers,
+		downstreamReqDataBuf: buffer.NewIoBufferString("body"),
+		notify:               make(chan struct{}, 1),
+		proxy: &proxy{
+			config: &v2.Proxy{
+				DownstreamProtocol: "Http1",
+				UpstreamProtocol:   "Http1",
+			},
+			clusterManager: &zzDemoClusterManager{pool: blackHole},
+			stats:          globalStats,
+			listenerStats:  newListenerStats("zz_demo"),
+		},
+		streamFilterChain: streamFilterChain{
+			DefaultStreamFilterChainImpl: &streamfilter.DefaultStreamFilterChainImpl{},
+		},
+	}
+
+	// what chooseHost() would have prepared for the first try
+	parseProxyTimeout(ctx, &s.timeout, route, headers)
+	if s.timeout.GlobalTimeout != 300*time.Millisecond || s.timeout.TryTimeout != 0 {
+		t.Fatalf("unexpected timeout setup: %+v", s.timeout)
+	}
+	s.retryState = newRetryState(zzDemoRetryPolicy{}, headers, info, "Http1")
+	s.upstreamRequest = &upstreamRequest{
+		downStream: s,
+		proxy:      s.proxy,
+		protocol:   "Http1",
+		connPool:   failPool,
+		host:       host,
+	}
+
+	// same driver loop as downStream.OnReceive, starting right after choose host
+	done := make(chan struct{})
+	go func() {
+		defer close(done)
+		phase := types.DownRecvHeader
+		for i := 0; i < 10; i++ {
+			s.cleanNotify()
+			phase = s.receive(ctx, 1, phase)
+			if phase == types.End {
+				return
+			}
+		}
+	}()
+
+	select {
+	case <-done:
+	case <-time.After(3 * time.Second): // 10x the configured global timeout
+		fmt.Printf("REPLAY-CONFIRMED request still pending 3s after start although the global timeout is 300ms (global timer armed: %v); tries: first=%d retry=%d, replies to the client=%d\n",
+			s.responseTimer != nil, atomic.LoadInt32(&failPool.streams), atomic.LoadInt32(&blackHole.streams), atomic.LoadInt32(&downstreamSender.headersSent))
+		s.OnResetStream(types.StreamConnectionTermination) // unblock the worker: the client goes away
+		<-done
+		return
+	}
+	if n := atomic.LoadInt32(&downstreamSender.headersSent); n != 1 || s.requestInfo.ResponseCode() != api.TimeoutExceptionCode {
+		fmt.Printf("REPLAY-CONFIRMED retried request ended with %d replies, code %d (expected one %d)\n", n, s.requestInfo.ResponseCode(), api.TimeoutExceptionCode)
+		return
+	}
+	fmt.Println("REPLAY-NOT-REPRODUCED one timeout reply within the global timeout")
+}
+`
+			out, _ := runOverlayTest("pkg/proxy", src, "^TestGovcReplay$")
+			return outcomeFromOutput(src, out)
+		},
+	})
+}
